@@ -258,6 +258,9 @@ func runC04(r *Run) {
 	r.Expect("C04.6", 1, "predecessor hash comparison")
 
 	commitPathOrder(r, "C04.7")
+	// hash linkage currently rests only on the previous-commit certificate being counted for the
+	// header's own PrevBlockHash (D12): those guards are C01.5
+	r.Borrow(runC01, "C01", "C01.5", "C04.8", "acceptance of a proposed header counts the previous commit certificate for the header's own PrevBlockHash under the kernel-supplied previous validator set")
 }
 
 func runC07(r *Run) {
